@@ -76,7 +76,7 @@ def run_case(seed, tier, b, acc):
         return [{'what': 'generation failed', 'error': res[1], 'text': text[:2500]}]
     out = res[1]
     d = b.workdir()
-    ok, err, so = b.compile(d, {'m.cpp': out}, cxxlib.generate(mod))
+    ok, err, so = b.compile(d, {'m.cpp': out}, cxxlib.generate(mod, identity=True))
     if not ok:
         acc.count('module_build_failed')
         return [{'what': 'generated program cannot be built against the library that declares the interface: no binding can forward',
@@ -117,6 +117,7 @@ def run_case(seed, tier, b, acc):
     acc.count('results_checked', R['checked'])
     acc.count('objects_identified', R['objects_identified'])
     acc.count('templated_member_or_function_calls', R.get('templated_calls', 0))
+    acc.count('by_reference_arguments_identity_checked', R.get('identity_args', 0))
     for k, n in R['skipped'].items():
         acc.count('skipped:' + k.split(' ')[0], n)
     acc.case(hashlib.sha256(out.encode()).hexdigest()[:16], R['bindings'] >= 5)
@@ -152,7 +153,7 @@ def probe_import(witness, ctx):
         m, _ = project.project(tool.parse(witness['interface']))
         out = tool.pybind_text(witness['interface'], ('',), [], False, 'm', b.template())
         d = b.workdir()
-        ok, err, so = b.compile(d, {'m.cpp': out}, cxxlib.generate(m))
+        ok, err, so = b.compile(d, {'m.cpp': out}, cxxlib.generate(m, identity=True))
         if not ok:
             return 'does not build'
         p = subprocess.run([sys.executable, '-c', 'import sys; sys.path.insert(0, %r); import m' % d], stdout=subprocess.PIPE,
